@@ -431,12 +431,32 @@ func runTrees(o *hlib.Out, r *hlib.Rand, cfg hlib.Config) {
 				b[j] = byte(fr.Intn(256))&0xf8 | byte(3+fr.Intn(5))
 			}
 		}
+		// every third program: decode errors on purpose after fields were added (repeated field name,
+		// Fatalf mid-compound, d.Format merge) somewhere — inside structs, arrays, nested formats, nested roots
+		if i%3 == 0 {
+			for h := fr.Range(1, 3); h > 0 && len(b) >= 4; h-- {
+				j := 2 + fr.Intn(len(b)-3)
+				switch fr.Intn(4) {
+				case 0, 1:
+					b[j] = []byte{0xe1, 0xe9, 0xf1, 0xf9}[fr.Intn(4)] // repeat the last field name
+				case 2:
+					b[j] = 0xf8 // Fatalf
+				case 3:
+					b[j] = byte(fr.Intn(32))<<3 | 6 // nested format …
+					b[j+1] = 0xc0 | byte(fr.Intn(64)) // … merged with d.Format
+				}
+			}
+		}
 		f := "verif_c12"
 		if fr.Intn(3) == 0 {
 			f = "verif_c12a"
 		}
+		synthHazards = 0
 		if runTree(o, fr, treeCase{format: f, input: b}, maxNodes, "synthetic") {
 			o.Stat("synthetic_trees", 1)
+			if synthHazards > 0 {
+				o.Stat("synthetic_trees_with_provoked_decode_error", 1)
+			}
 		}
 	}
 }
